@@ -117,7 +117,16 @@ func (s *Search) Run() Stats {
 						mu.Unlock()
 						continue
 					}
-					outs[i] = out{jobs[i].hist, s.Exec(jobs[i].hist)}
+					res := s.Exec(jobs[i].hist)
+					if res.Violation == nil && res.Key != "" {
+						// seen is read-only during the parallel phase: a state already known from an
+						// earlier level needs no successor list (saves memory; same-level duplicates
+						// are resolved deterministically in the serial phase below)
+						if _, dup := seen[hkey(res.Key)]; dup {
+							res.Enabled = nil
+						}
+					}
+					outs[i] = out{jobs[i].hist, res}
 				}
 			}()
 		}
